@@ -21,8 +21,10 @@ def gen_cases(ctx, n_go, n_py, n_bad):
             go.append({"kind": kind, "pairs": pairs, "req": {"op": kind, "pairs": hc.hexpairs(pairs)}})
         elif kind in ("read_stream", "read_frame"):
             b = hc.ref_marshal(pairs) + payload
-            go.append({"kind": kind, "pairs": pairs, "payload": payload, "bytes": b,
-                       "req": {"op": kind, "bytes": b.hex(), "cap": cap}})
+            rq = {"op": kind, "bytes": b.hex(), "cap": cap}
+            if kind == "read_stream" and rng.random() < 0.5:
+                rq["chunk"] = rng.choice([1, 2, 3, 5, 17, 100, 1000])     # the connection delivers the stream in pieces
+            go.append({"kind": kind, "pairs": pairs, "payload": payload, "bytes": b, "req": rq})
         else:
             body = hc.ref_marshal(pairs) + payload
             frame = struct.pack(">I", len(body)) + body
